@@ -201,10 +201,11 @@ PROPS = {
     },
     "C17": {
         "level": "exploration",
-        "profiles": [{"name": "fleet-bucket", "weight": 2, "race": True, "chunk": 40, "env": {"LSSIM_KEEP_HEALTH": 1}},
-                     {"name": "fleet-converge", "weight": 1, "race": True, "chunk": 40, "env": {"LSSIM_KEEP_HEALTH": 1}},
-                     {"name": "fleet-delete", "weight": 1, "race": True, "chunk": 40, "env": {"LSSIM_KEEP_HEALTH": 1}},
-                     {"name": "conc-sim", "weight": 1, "chunk": 1}],
+        "profiles": [{"name": "fleet-bucket", "weight": 2, "race": True, "chunk": 40, "env": {"LSSIM_KEEP_HEALTH": 1, "LSSIM_PROPERTY": "C17"}},
+                     {"name": "fleet-converge", "weight": 1, "race": True, "chunk": 40, "env": {"LSSIM_KEEP_HEALTH": 1, "LSSIM_PROPERTY": "C17"}},
+                     {"name": "fleet-delete", "weight": 1, "race": True, "chunk": 40, "env": {"LSSIM_KEEP_HEALTH": 1, "LSSIM_PROPERTY": "C17"}},
+                     {"name": "conc-sim", "weight": 1, "chunk": 1},
+                     {"name": "fleet-bucket", "weight": 1, "env": {"LSSIM_PROPERTY": "C17"}}],
         "quick_s": 60,
         "rule": "race part: the fleet-bucket (cleaners on, crashes, faults), fleet-converge and fleet-delete (tomb sweeper on in a third of the runs) profiles run in the -race build with the health tracker goroutines left running; the scheduler hides its own hand-off from the detector "
                 "(runtime.RaceDisable around park/release), so each run is a happens-before race check of exactly the interleaving it executed; only reports in which at least one of the two "
